@@ -209,6 +209,23 @@ impl Property for C03 {
                 format!("output differs: {} ; file: {}", first_diff(&r.out, &expected), xz_text(c)),
             );
         }
+        // the same well-formed file through fragmenting readers (derived from the file hash)
+        let h = hash64(c);
+        let readers = [
+            ReaderKind::Chunky { pattern: vec![1 + (h % 13) as usize, 1 + ((h >> 8) % 200) as usize], stops: vec![] },
+            ReaderKind::BufReader { cap: 8 + ((h >> 20) % 120) as usize, reads: vec![] },
+            ReaderKind::BufReader { cap: 8192, reads: vec![] },
+        ];
+        let rk = &readers[(h >> 40) as usize % 3];
+        st.eval();
+        st.class("also decoded through a fragmenting reader");
+        let r2 = sut::xz_decompress(&file.bytes, rk, &Io::default());
+        if !r2.verdict.is_ok() || r2.out != expected {
+            return Judgement::violation(
+                if r2.verdict.is_ok() { "wrong-bytes:fragmented-reader" } else { "reject-valid:fragmented-reader" },
+                format!("well-formed .xz through {:?}: {} ; {} ; file: {}", rk, r2.verdict.brief(), first_diff(&r2.out, &expected), xz_text(c)),
+            );
+        }
         Judgement::Pass
     }
 }
